@@ -1,16 +1,28 @@
 use super::types::{BlockChunk, BlockSizeSpec, ESpec, ESpecError, ZLibVariant};
 
+/// Maximum nesting depth of specs (`b:{..=e:{..,b:{..}}}`) accepted by the parser.
+///
+/// The parser is recursive, so unbounded nesting in an untrusted string
+/// overflows the stack. Specs seen on the CDN nest two or three levels deep
+/// (a block table of encrypted or compressed chunks).
+const MAX_NESTING_DEPTH: usize = 64;
+
 /// Parser for `ESpec` strings
 pub struct Parser<'a> {
     input: &'a str,
     pos: usize,
+    depth: usize,
 }
 
 impl<'a> Parser<'a> {
     /// Create a new parser for the given input
     #[must_use]
     pub const fn new(input: &'a str) -> Self {
-        Self { input, pos: 0 }
+        Self {
+            input,
+            pos: 0,
+            depth: 0,
+        }
     }
 
     /// Parse the input string into an `ESpec`
@@ -93,6 +105,20 @@ impl<'a> Parser<'a> {
 
     /// Parse an `ESpec` from the current position
     fn parse_espec(&mut self) -> Result<ESpec, ESpecError> {
+        if self.depth >= MAX_NESTING_DEPTH {
+            return Err(ESpecError::NestingTooDeep {
+                position: self.pos,
+                max: MAX_NESTING_DEPTH,
+            });
+        }
+        self.depth += 1;
+        let result = self.parse_espec_inner();
+        self.depth -= 1;
+        result
+    }
+
+    /// Dispatch on the type letter at the current position
+    fn parse_espec_inner(&mut self) -> Result<ESpec, ESpecError> {
         match self.peek() {
             Some('n') => {
                 self.consume('n')?;
